@@ -480,8 +480,11 @@ def check_execution(ctx, cfg, sig, e, problem, tracked, result, exc, n_new, allo
                 if unrec:
                     non_probe = [p for p in non_probe if p in keyset or p == unrec[0] or not _is_probe(p, [unrec[0]])]
             if len(non_probe) > allowed + (1 if plan["nan"] else 0):
+                # (not fatal without a database: that configuration is a listed finding and the other oracles still apply)
                 ctx.violate("C03.budget_points", sig + ("" if use_db else " use_database=False"),
-                            f"execution {e}: {name} was called at {len(non_probe)} distinct non-probe points with a budget of {allowed} ({n_new} new entries); cfg={cfg}")
+                            f"execution {e}: {name} was called at {len(non_probe)} distinct non-probe points with a budget of {allowed} ({n_new} new entries); cfg={cfg}",
+                            fatal=use_db)
+                break
             if use_db:
                 stray = [p for p in new_pts if p not in keyset and not _is_probe(p, keys)]
                 if plan["nan"] and stray:
